@@ -275,6 +275,9 @@ class RaggedArray(IndexableArray, np.lib.mixins.NDArrayOperatorsMixin):
         # not necessary when ufunc does not have identity
         if ufunc.identity is not None:
             result[ra._shape.lengths == 0] = identity
+            # reduceat returns a one-element row as is; reduce folds it with the identity (gcd, hypot: |x|)
+            single = ra._shape.lengths == 1
+            result[single] = ufunc(identity, result[single])
 
         return result
 
